@@ -336,7 +336,12 @@ pub fn last<T: AsRef<Path>>(path: T) -> RvResult<String> {
 /// assert_eq!(sys::mash("/foo", "/bar"), PathBuf::from("/foo/bar"));
 /// ```
 pub fn mash<T: AsRef<Path>, U: AsRef<Path>>(dir: T, base: U) -> PathBuf {
-    let base = trim_prefix(base, path::MAIN_SEPARATOR.to_string());
+    // Drop every leading separator, a repeated one would otherwise still make `base` absolute
+    let base = base.as_ref();
+    let base = match base.to_string() {
+        Ok(x) => PathBuf::from(x.trim_start_matches(path::MAIN_SEPARATOR)),
+        _ => base.to_path_buf(),
+    };
     let path = dir.as_ref().join(base);
     path.components().collect::<PathBuf>()
 }
